@@ -395,7 +395,8 @@ def c19_d(ctx):
     sm = ctx.own_method(rp, 'sample')
     workers = [m for m in rp.methods.values() if m is not sm and
                any(isinstance(n, ast.Assign) and match(
-                   ctx.ex(m).term(n.value), pattern('_r.pdf(_t)')) is not None
+                   ctx.ex(m).term(n.value), pattern('_r.pdf(_t)')) is not None and
+                   match(ctx.ex(m).term(n.value), pattern('_r.pdf(_t)'))['r'][0] == 'item'
                    for n in own_nodes(m.node))]
     if not workers:
         raise AnchorMissing('parallel weight worker')
